@@ -21,9 +21,53 @@ MEDIA = {"absent": None, "image": "image", "sticker": "sticker", "audio": "audio
 CHILD_FLAGS = ["cSet", "cDelete", "cRemove", "cAdd", "cUpdate", "cSync", "cSubject", "cCreate", "cCount", "cIdentity", "cDirty", "cOffline", "cAccount"]
 
 
-def payload_bytes(kind, rng=None, text=None):
+UNPRESENTABLE = ["image", "contact", "location", "document", "audio", "video", "sticker", "protocol", "call"]
+
+
+def unpresentable_payload(pseed):
+    """a payload kind the messages layer cannot present (anything but text / extended text / a key distribution), with generated
+    field values and presence: media kinds arriving without a mediatype attribute, a revoke (protocol message) with any key
+    shape — user / group chat, with or without participant, from me or not —, a call"""
+    import random
+    from corr import c10
+    from lib import payloadspec as ps
+    from yowsup.layers.protocol_messages.proto.e2e_pb2 import Message
+    r = random.Random(pseed)
+    kind = UNPRESENTABLE[pseed % len(UNPRESENTABLE)]
+    m = Message()
+    if kind == "call":
+        m.call.call_key = bytes(r.randrange(256) for _ in range(r.randint(1, 8)))
+        return m.SerializeToString(), kind
+    if kind == "protocol":
+        k = m.protocol_message.key
+        group = r.random() < 0.5
+        k.remote_jid = GJID if group else JID
+        k.from_me = r.random() < 0.5
+        k.id = "3EB0%X" % r.randrange(1 << 40)
+        if r.random() < (0.5 if group else 0.2):
+            k.participant = JID
+        m.protocol_message.type = 0
+        return m.SerializeToString(), kind + (":group" if group else ":user") + (":participant" if k.HasField("participant") else "")
+    holder = type("H", (), {})()
+    req = c10.required_fields(holder)
+    spec = c10.gen_spec(r, kind, 1, req)
+    if kind == "document":
+        spec["file_length"] = list(spec["dl.file_length"])
+    mspec = {p_: ["none"] for p_, _t in ps.flat_fields("message")}
+    field = [p_ for p_, t in ps.flat_fields("message") if t == "sub:" + kind][0]
+    mspec[field] = ["sub", spec]
+    try:
+        return ps.to_proto("message", c10.build_obj("message", mspec)).SerializeToString(), kind
+    except Exception:
+        m.call.call_key = b"\x01\x02"
+        return m.SerializeToString(), "call"
+
+
+def payload_bytes(kind, rng=None, text=None, pseed=None):
     """protobuf payload of a message without mediatype"""
     from yowsup.layers.protocol_messages.proto.e2e_pb2 import Message
+    if kind == "other" and pseed is not None:
+        return unpresentable_payload(pseed)[0]
     m = Message()
     if kind == "conversation":
         m.conversation = text or "hello there"
@@ -196,7 +240,7 @@ def build_stanza(d, seq=1):
                 # the envelope's media type says nothing about the payload: a key distribution on its own travels under any of them
                 data = payload_bytes("keyDistributionOnly") if d.get("payload") == "keyDistributionOnly" else media_payload(media)
             else:
-                data = payload_bytes(d.get("payload", "other"))
+                data = payload_bytes(d.get("payload", "other"), pseed=d.get("pseed"))
             kids.append(N("proto", pattrs, None, data))
         return N("message", attrs, kids)
     raise ValueError(tag)
